@@ -2013,6 +2013,11 @@ class Type_Param_Def_Stmt(StmtBase):  # R435
         if not l1 or not l2:
             return
         if kind_selector:
+            if len(kind_selector) < 2:
+                # Too short to be a kind selector ('*n' and '(n)' are the
+                # shortest): Kind_Selector.match() relies on its caller
+                # for this.
+                return
             kind_selector = Kind_Selector(kind_selector)
         return kind_selector, Type_Param_Attr_Spec(l1), Type_Param_Decl_List(l2)
 
